@@ -12,1217 +12,1316 @@ Definition show_fres (r : fres) : string :=
   end.
 Definition check (rs : list rune) : string := digest (show_fres (format_res rs)).
 Definition full (rs : list rune) : string := show_fres (format_res rs).
-Eval vm_compute in ("<<<M1372>>>" ++ check (runes_of_ascii "// top
-options // c0a
-  // c0b
-{ // c1
-FixedStringPadFromLeft // c2a
-  // c2b
-= // c3
-true ; // c5a
-  // c5b
-FixedStringPadChar // c6a
-  // c6b
-= // c7
-'0' // c8
+Eval vm_compute in ("<<<M1357>>>" ++ check (runes_of_ascii "options { // c1a
+  // c1b
+LittleEndian // c2
+= false ;
+    // c5
+StringPrefixLenType // c6
+= // c7a
+  // c7b
+u16 // c8a
+  // c8b
 ; // c9a
   // c9b
-} // c10a
-  // c10b
-packet // c11
-Leg { // c13
-repeat InSym93 // c15a
-  // c15b
-{ // c16a
-  // c16b
-zchar[ // c17
-3 // c18
-] // c19a
-  // c19b
-Acct // c20
-, // c21
-string Side2 , // c24a
+ArrayPrefixLenType
+    // c10
+= u8 ;
+    // c13
+FixedStringPadChar // c14
+= // c15
+'0'
+    // c16
+; // c17a
+  // c17b
+} // c18
+packet // c19
+Leg // c20a
+  // c20b
+{
+    // c21
+zchar[
+    // c22
+1 // c23a
+  // c23b
+] // c24a
   // c24b
-i32 // c25
-Flags ,
-    // c27
-f32 Note // c29a
-  // c29b
+Ref
+    // c25
+, // c26a
+  // c26b
+repeat // c27
+string
+    // c28
+count // c29
 ,
     // c30
-i32 // c31
-msgKind
-    // c32
-,
-    // c33
-} // c34a
-  // c34b
-, // c35
-f64
+repeat InMsgkind21 { repeat char[ // c35
+2
     // c36
-Note // c37
-, // c38
-uint16
-    // c39
-Px // c40a
-  // c40b
-,
+] // c37a
+  // c37b
+price // c38a
+  // c38b
+, // c39a
+  // c39b
+uint64 // c40
+sym
     // c41
-} // c42
-packet Quote
-    // c44
-{
-    // c45
-zchar[ // c46a
+, // c42
+zchar[ // c43
+9 // c44a
+  // c44b
+] msgKind // c46a
   // c46b
-2 // c47
-] // c48a
-  // c48b
-OrderId // c49a
-  // c49b
-, }
-    // c51
-packet // c52a
-  // c52b
-Ack // c53
-{ // c54a
-  // c54b
-repeat // c55a
-  // c55b
-string // c56
-lastPx
-    // c57
+, } // c48
+, zchar[ // c50a
+  // c50b
+5 ]
+    // c52
+Note // c53a
+  // c53b
 ,
+    // c54
+}
+    // c55
+packet // c56a
+  // c56b
+Ack // c57
+{
     // c58
-zchar[
+u16
     // c59
-4 // c60a
-  // c60b
-]
-    // c61
-price , uint32 OrderId // c65
-, // c66a
-  // c66b
-Quote // c67
-, // c68a
-  // c68b
-int8
-    // c69
-Acct // c70a
-  // c70b
-, } packet
-    // c73
-Fill // c74
-{ // c75
-repeat
-    // c76
-Leg , // c78
-@rightPad // c79a
-  // c79b
-(
-    // c80
-'0' // c81
-) char[ // c83
-11
-    // c84
-] // c85
-Note , f64
-    // c88
-Px
-    // c89
-, // c90
-@rightPad
-    // c91
-(
-    // c92
-'\x00' // c93a
-  // c93b
-)
-    // c94
-char[ 5 ] Flags // c98a
-  // c98b
+seqNo // c60
 ,
-    // c99
-zchar[ // c100
-9 // c101
-] // c102a
-  // c102b
-x // c103
+    // c61
+repeat // c62a
+  // c62b
+char[ 1 // c64
+] // c65
+Acct // c66
+, // c67
+@leftPad // c68
+( // c69
+' ' // c70
+) // c71a
+  // c71b
+char[
+    // c72
+4
+    // c73
+] msgKind // c75
+, // c76
+repeat InTag747
+    // c78
+{ // c79a
+  // c79b
+Leg // c80
+, } , // c83
+repeat // c84a
+  // c84b
+string // c85
+Tail // c86a
+  // c86b
+, // c87a
+  // c87b
+Leg // c88
+, }
+    // c90
+packet Trade // c92a
+  // c92b
+{ // c93a
+  // c93b
+u64 clOrdID // c95
+, // c96
+repeat // c97a
+  // c97b
+InLastpx24 { // c99
+char[ 10 // c101a
+  // c101b
+] Note // c103
 , // c104a
   // c104b
-string
-    // c105
-msgKind // c106a
-  // c106b
+char[ 3 ] // c107
+Qty // c108
+, repeat // c110a
+  // c110b
+char[
+    // c111
+2 // c112
+] // c113
+Side2 , // c115
+Ack
+    // c116
 ,
-    // c107
-} // c108
-root packet // c110
-Order // c111
-{ Leg
-    // c113
-,
-    // c114
-repeat Ack // c116a
-  // c116b
-, @rightPad
-    // c118
-( // c119a
+    // c117
+repeat // c118
+InX47 // c119a
   // c119b
-'\x00' ) char[
-    // c122
-3 ] // c124
-Side2
-    // c125
-, // c126
-repeat // c127a
-  // c127b
-char[ // c128a
-  // c128b
-1 // c129a
-  // c129b
-] seqNo // c131a
-  // c131b
-, // c132
-u16 // c133
-clOrdID // c134
-,
-    // c135
-match // c136a
-  // c136b
-clOrdID // c137
-as // c138a
-  // c138b
-Body // c139a
+{ Ack // c121a
+  // c121b
+, // c122a
+  // c122b
+} , } , // c126a
+  // c126b
+}
+    // c127
+root
+    // c128
+packet
+    // c129
+Heartbeat // c130
+{ repeat // c132
+u64 // c133a
+  // c133b
+Acct , string lastPx // c137a
+  // c137b
+, u8 // c139a
   // c139b
-{ 198 // c141a
-  // c141b
-:
-    // c142
-Leg // c143a
-  // c143b
-, 23
-    // c145
-: // c146
-Quote
-    // c147
-, // c148a
-  // c148b
-13 // c149
-:
-    // c150
-Ack // c151
-, // c152a
-  // c152b
-159 // c153
-: // c154
-Fill // c155a
-  // c155b
-, // c156a
-  // c156b
-} , // c158a
-  // c158b
-u32 // c159
-venue // c160a
-  // c160b
-@calculatedFrom( ""CRC32"" // c162
-) // c163a
-  // c163b
-, } // c165a
-  // c165b
-")).
-Eval vm_compute in ("<<<M156>>>" ++ check (runes_of_ascii "packet
-A { @rightPad ( '0' ) repeat	i8i8
-    { zchar[ 007 ]
-    packetx,
-    metadata `" ++ [28040; 24687; 31867; 22411]%N ++ runes_of_ascii "` ,	repeat float64  T ,}, @tag(0)Z9_ { int
-@lengthOf( tag
-)`line1
-line2`
-, repeat i8i8 // packet A { u8 x, }
-{  zchar[  00 ]stringy
-,
-repeat f32a{ match i64_ //
-as
-    string_ {[ 255 , ""{,}"" , 0123456789 ]
-: x_y_z
-, """ ++ [233]%N ++ runes_of_ascii "t" ++ [233]%N ++ runes_of_ascii """ : A
-, ""`tick`"" : len ,} , } ,
-    //
-    repeat u8x {u16 Z9_
-@calculatedFrom(""" ++ [128512]%N ++ runes_of_ascii """ ) `line1
-line2` ,f32 matchKey
-    ,} ,// " ++ [27880; 37322]%N ++ runes_of_ascii "
-float64 u8x `
-`,
-    },//
-} , // `tick` ""quote"" 'q'
-a1	{ repeat
-    // trailing space 
-    zchar[ 007
-] Foo `two words`
-,f32a	@calculatedFrom( """ ++ [28040; 24687]%N ++ runes_of_ascii """// trailing space 
-) ,int64 i64_  @calculatedFrom( // trailing space 
-""`tick`"" ) , } ,
-    @lengthOf(
-    // c
-    Header )	f32
-stringy @calculatedFrom(
-""x y"" )`say ""hi""` , Foo , float64
-BodyLength@calculatedFrom( // " ++ [27880; 37322]%N ++ runes_of_ascii "
-""packet"") ,
-    uint32
-// packet A { u8 x, }
-//
-int
-//
-//x
-, } packet string_{ @tag( 4294967296
-) repeat u
-`two words` , repeat zchar[ 0 ]
-BodyLength
-, @tag( 255 )/// triple
-int `line1
-line2` ,	uint8x`it's`,@tag(
-65535 )
-int8
-    metadata
-`" ++ [233]%N ++ runes_of_ascii "` ,/// triple
+Side2 // c140a
+  // c140b
+, // c141
 match
-options1
-//x
-// " ++ [128512]%N ++ runes_of_ascii " emoji
-as
-    float// packet A { u8 x, }
-{ 3: f32a , """ ++ [28040; 24687]%N ++ runes_of_ascii """
-    : charz
-,}
-,match uint8x	as
-string_ { ""CRC32"" //x
+    // c142
+Side2 as // c144a
+  // c144b
+Body {
+    // c146
+2 // c147
 :
-x
-, } , uint8	packetx`crlf
-line` ,
-@leftPad (
+    // c148
+Trade // c149a
+  // c149b
+, // c150
+157 // c151
+: Ack // c153a
+  // c153b
+,
+    // c154
+46 // c155
+: // c156
+Leg // c157a
+  // c157b
+,
+    // c158
+} // c159
+, // c160
+u32 // c161a
+  // c161b
+sym
+    // c162
+@calculatedFrom( // c163a
+  // c163b
+""CRC32"" // c164
 )
-    zchar[
-0
-] Foo `say ""hi""`, }
+    // c165
+, // c166a
+  // c166b
+} // c167a
+  // c167b
 ")).
-Eval vm_compute in ("<<<M359>>>" ++ check (runes_of_ascii "root	packet // @lengthOf(
-repeatCount {
-    @lengthOf(u8x
-) @calculatedFrom(""1"" ) @tag( 007 ) repeat zchar[
-42 ] Header
-    `" ++ [28040; 24687; 31867; 22411]%N ++ runes_of_ascii "` , match options1 as asx
-{ 255
-    // `tick` ""quote"" 'q'
-    :
-    roots , }, // a // b
-Header
-    @lengthOf(
-    // a // b
-    options1	) `` , Header //	t
-@lengthOf(
-    len )`{ , }`
-, o matchKey `u8 x,` ,} packet packetx {zchar[
-255
-]
-crc
-    , }
-    packet
-    Logon {
-    body { float { repeat Logon  trueish ,  } , } ,	@calculatedFrom(
-    // `tick` ""quote"" 'q'
-    ""`tick`"" ) repeat char[
-    0] f32a
-,match body
-    as
-    float {[65535
-, """ ++ [28040; 24687]%N ++ runes_of_ascii """
-    ] :
-calculatedFrom ,}
-, u32 float@calculatedFrom(
-    """ ++ [233]%N ++ runes_of_ascii "t" ++ [233]%N ++ runes_of_ascii """ // @lengthOf(
-)
-, string body @lengthOf( len
-    )`
-` //
-, u8x
-@calculatedFrom( ""a\""b"")
-    //	t
-    , //	t
-float64 options1@calculatedFrom(""" ++ [128512]%N ++ runes_of_ascii """ )`it's`
-    ,
-//x
+Eval vm_compute in ("<<<M121>>>" ++ check (runes_of_ascii "options {
+    tag
+=
+int32 ; } root
+    packet T { repeat a1 { match x_y_z as charz { [	00,
 // trailing space 
-match crc as chars
-    {
-3
-: options1 // @lengthOf(
-, [ 10 ] :_x  [ ""{,}""
-] :options1
-,[ ""CRC32"", ""a\\""  ,
-""a\\"" , ""packet"", 7
-    // `tick` ""quote"" 'q'
-    ]
-:
-As
-    } , i16 msg_type , }")).
-Eval vm_compute in ("<<<M1873>>>" ++ check (runes_of_ascii "options {
-    matchKey = ""x y"";
-    MetaDataX = '0';
-}
-
-packet msg_type {
-    @rightPad(' ')
-    repeat u128 body,
-    match body as pack {
-        [""\" ++ [233]%N ++ runes_of_ascii """, ""1""] : BodyLength,
-        [
-            255, ""a	b"", ""a\\"", ""{,}"", 007,
-            007, 0123456789
-        ] : options1,
-    },
-    @leftPad()
-    @lengthOf(charz)
-    @tag(42)
-    o {
-        i32 msg_type @lengthOf(A) `doc`,
-        zchar[1] charz,// c
-        i8 packetx `{ , }`,
-        msg_type `crlf
-        line`,
-    },
-    @calculatedFrom(""\" ++ [233]%N ++ runes_of_ascii """)
-    Z9_ @calculatedFrom(""" ++ [128512]%N ++ runes_of_ascii """) `tab	here`,
-    repeat char[] Foo,
-    repeat zchar[0123456789] u128,
-}
-
-packet f32a {
-    f32a @lengthOf(matchKey),
-    @rightPad(' ')
-    @lengthOf(chars)
-    _x Foo ``,
-    match body as body {
-        [4294967296, ""packet"", 3, """ ++ [128512]%N ++ runes_of_ascii """, 0123456789] : T,
-        [""a\\""] : T,
-        ""\n"" : u8x,
-    },
-}//x
-
-root packet lengthOf {
-}")).
-Eval vm_compute in ("<<<M362>>>" ++ check (runes_of_ascii "MetaData len
-{i8 _x
-    //	t
-    `` , zchar[ 00 ] tag , roots
-u
-    // `tick` ""quote"" 'q'
-    ,uint16 repeatCount , msg_type tag , } packet x_y_z
-    {
-metadata { i8i8 chars
-,i64
-chars , }
-, repeat u16 asx
-// a // b
-// a // b
-,
-}	packet u8x  { @lengthOf( BodyLength	)	@leftPad(
-// a // b
-//
-)float
-    /// triple
-    `
-` ,
-@calculatedFrom( ""// no comment"" ) float32 // " ++ [128512]%N ++ runes_of_ascii " emoji
-chars`// not a comment` , uint32
-u128 , @tag( 0 )
-int16	tag , leftPad
-    msg_type , // trailing space 
-pack
-    `tab	here` ,
-@lengthOf(
-repeatCount
 // c
-// c
-)zchar[ 4294967296 ] len, i32 packetx`tab	here` , calculatedFrom ,metadata @calculatedFrom(
-""// no comment"" ) , } options { // trailing space 
-options1 = 42 ; i64_
-    // a // b
-    = char[] falsey=
-// packet A { u8 x, }
-//	t
-42 // a // b
-Packet =
-true
-;}
-")).
-Eval vm_compute in ("<<<M1949>>>" ++ check (runes_of_ascii "packet charz {
-    //	t
-    repeat i64_,
-    trueish {
-        repeat _x,
-        repeatCount,
-        repeat u16 matchKey `
-                `,
-        // " ++ [128512]%N ++ runes_of_ascii " emoji
-        // a // b
-        matchKey @calculatedFrom(""a\""b"") `it's`,
-    },
-    @tag(007)
-    @calculatedFrom(""a\\"")
-    @tag(3)
-    f32 f32a @lengthOf(asx) `crlf
-        line`,
-    repeat i8 string_,
-    @lengthOf(Logon)
-    @lengthOf(x_y_z)
-    @lengthOf(zchar)
-    repeat char[65535] Foo `" ++ [233]%N ++ runes_of_ascii "`,
-    @calculatedFrom(""abc"")
-    trueish @lengthOf(A),
-    char[0] float,
-    Packet @calculatedFrom(""a	b""),
-}
-
-MetaData Pad {
-    char[00] leftPad,
-    u8 rootA `
-        `,
+4294967296,""it's"" ,
+    // " ++ [128512]%N ++ runes_of_ascii " emoji
+    """ ++ [28040; 24687]%N ++ runes_of_ascii """ ]:	zchar
+, [ ""packet"" ,
+/// triple
+/// triple
+""x y"" , ""it's"" ,""abc""
+,""it's""
+    ]	: string_, 0  :Z9_ } , }
+// `tick` ""quote"" 'q'
+// " ++ [128512]%N ++ runes_of_ascii " emoji
+, match u8x as pack { [
+0123456789
     //
-    // " ++ [128512]%N ++ runes_of_ascii " emoji
-    int32 a1 `say ""hi""`,
-    Z9_ float,//x
-    i32 Pad,
-}")).
-Eval vm_compute in ("<<<M1238>>>" ++ check (runes_of_ascii "// top
-options
-    // c0
-{
-    // c1
-zchar
-    // c2
-=
-    // c3
-true
-    // c4
-;
-    // c5
-Pad
-    // c6
-=
-    // c7
-char[
-    // c8
-00
-    // c9
-]
-    // c10
-a1
-    // c11
-=
-    // c12
-uint32
-    // c13
-BodyLength
-    // c14
-=
-    // c15
-true
-    // c16
-;
-    // c17
-}
-    // c18
-root
-    // c19
-packet
-    // c20
-T
-    // c21
-{
-    // c22
+    , ""x y"" /// triple
+] :trueish, } , @calculatedFrom( ""a\""b"" ) repeat string_`two words` ,repeat //	t
+calculatedFrom
+`crlf
+line` , chars  {i16 chars , }  ,
+    } MetaData x_y_z{  }
+    options
+    {  } packet charz { u16 i64_@lengthOf( Packet ) `say ""hi""`
+    ,	match len as Packet {
+    [ """ ++ [28040; 24687]%N ++ runes_of_ascii """
+    // trailing space 
+    ] : chars ,4294967296
+:a1 ,
+    1 : int
+,
+// c
+// a // b
+42: Logon[ 255 ]
+    //
+    :
+    Packet , }, // `tick` ""quote"" 'q'
 @lengthOf(
-    // c23
-repeatCount
-    // c24
-)
-    // c25
-@tag(
-    // c26
-1
-    // c27
-)
-    // c28
-@calculatedFrom(
-    // c29
-""a	b""
-    // c30
-)
-    // c31
-string
-    // c32
-stringy
-    // c33
-@calculatedFrom(
-    // c34
-""\n""
-    // c35
-)
-    // c36
-`u8 x,`
-    // c37
-,
-    // c38
-}
-    // c39
-")).
-Eval vm_compute in ("<<<M1312>>>" ++ check (runes_of_ascii "// top
-options // c0a
-  // c0b
-{ // c1a
-  // c1b
-FixedStringPadChar = // c3
-'0' ; } packet
-    // c7
-Q // c8
-{ // c9a
-  // c9b
-zchar[ // c10a
-  // c10b
-4 // c11
-] // c12
-z , // c14
-@rightPad ( // c16
-'\x00' ) // c18a
-  // c18b
-char[ 3 // c20a
-  // c20b
-]
-    // c21
-n ,
-    // c23
-char[
-    // c24
-5
-    // c25
-] // c26
-d // c27
-, } // c29a
-  // c29b
-root
-    // c30
-packet R
-    // c32
-{ // c33
-Q , // c35a
-  // c35b
-zchar[ 8 // c37
-] // c38
-top , // c40a
-  // c40b
-repeat
-    // c41
-zchar[
-    // c42
-2
-    // c43
-] // c44a
-  // c44b
-zs
-    // c45
-, // c46a
-  // c46b
-} // c47
-")).
-Eval vm_compute in ("<<<M1324>>>" ++ check (runes_of_ascii "// top
-root
-    // c0
-packet Frame
-    // c2
-{ u8
-    // c4
-K
-    // c5
-,
-    // c6
-Logon
-    // c7
-first
-    // c8
-, // c9
-match // c10
-K // c11a
-  // c11b
-as
-    // c12
-Body // c13a
-  // c13b
-{
-    // c14
-1 : Logon
-    // c17
-, // c18a
-  // c18b
-2
-    // c19
-: // c20a
-  // c20b
-Logout ,
-    // c22
-}
-    // c23
-, // c24a
-  // c24b
-} // c25a
-  // c25b
-packet Logon { string // c29a
-  // c29b
-user // c30
-, // c31
-} // c32
-packet
-    // c33
-Logout
-    // c34
-{ u16 reason , // c38a
-  // c38b
-} // c39a
-  // c39b
-")).
-Eval vm_compute in ("<<<M301>>>" ++ check (runes_of_ascii "root packet A { repeat uint64 matchKey
-    , char[]
-    Packet , char[
-    007 ] calculatedFrom , }
-options{ Header =
-007 ;
-float =
-    true} packet chars { repeat
-chars ,@rightPad
-    ( '0' ) chars f32a
-    `line1
-line2`
-, int16
-u8x , @tag( 4294967296 ) @rightPad
-( )
-u64 packetx@calculatedFrom(""it's"" )
-,
-@calculatedFrom( ""\n"" ) o@calculatedFrom(""a\""b"" ), Logon	@lengthOf( BodyLength
-    /// triple
-    )
-// a // b
-// packet A { u8 x, }
-,}options {
-    }
-")).
-Eval vm_compute in ("<<<M1193>>>" ++ check (runes_of_ascii "// top
-MetaData
-    // c0
-uint8x // c1
-{ char[]
-    // c3
-f32a // c4a
-  // c4b
-`// not a comment`
-    // c5
-, // c6a
-  // c6b
-float32 // c7
-roots
-    // c8
-, // c9
-char[ // c10a
-  // c10b
-7 // c11
-] // c12
-u8x // c13
-, // c14a
-  // c14b
-zchar[
-    // c15
-10
-    // c16
-] // c17
-f32a // c18
-, // c19a
-  // c19b
-u64
-    // c20
-pack // c21a
-  // c21b
-, u16
-    // c23
-pack // c24a
-  // c24b
-,
-    // c25
-}
-    // c26
-")).
-Eval vm_compute in ("<<<M1139>>>" ++ check (runes_of_ascii "// top
-MetaData
-    // c0
-leftPad
-    // c1
-{
-    // c2
-chars
-    // c3
-MetaDataX
-    // c4
-,
-    // c5
-}
-    // c6
-packet
-    // c7
-repeatCount
-    // c8
-{
-    // c9
-char[
-    // c10
-255
-    // c11
-]
-    // c12
-uint8x
-    // c13
-`" ++ [233]%N ++ runes_of_ascii "`
-    // c14
-,
-    // c15
-}
-    // c16
-MetaData
-    // c17
-pack
-    // c18
-{
-    // c19
-As
-    // c20
+a1
+    ) body  { repeat	u32
+    Z9_ `doc` , }, @leftPad (
+    '\x00'
+)int16
+options1 @calculatedFrom(
+    """ ++ [233]%N ++ runes_of_ascii "t" ++ [233]%N ++ runes_of_ascii """	) ,@tag( 65535 ) repeat leftPad
+    `100% of %d`
+, //	t
+@calculatedFrom( ""x y"" ) @lengthOf(	Header ) @tag( 1
+) match // `tick` ""quote"" 'q'
 Foo
-    // c21
+    as	T
+{ 0123456789 :T// @lengthOf(
 ,
-    // c22
-}
-    // c23
-")).
-Eval vm_compute in ("<<<M248>>>" ++ check (runes_of_ascii "packet a1
-    { char[]	charz @calculatedFrom(
-    //x
-    """ ++ [28040; 24687]%N ++ runes_of_ascii """)
+10	: charz , """ ++ [28040; 24687]%N ++ runes_of_ascii """ : Packet[0123456789 //x
+,	""// no comment"",
+7
+    ,  00 //
+, 10
+    ,3 ,
+00 ,
+""\" ++ [233]%N ++ runes_of_ascii """] : Foo }
 ,
-    uint8x`crlf
-line`
-    , uint64 T  `line1
-line2` ,
-    @leftPad (
-'0')
-// a // b
-/// triple
-@calculatedFrom( ""abc"" )
-@tag( 3 ) match
-int // a // b
-as len
-{ 0	:  chars, [ 10, ""a\\"",
-1 ,0 ,10 , 0
-    ] : body, 007 :
-    // a // b
-    rootA // a // b
-, } , falsey options1 , }
-")).
-Eval vm_compute in ("<<<M1661>>>" ++ check (runes_of_ascii "packet float {
-    // c2
-    @rightPad()
-    // c5a
-    // c5b
-    rootA @lengthOf(trueish),
-    // c10
-    stringy @lengthOf(matchKey),// c15a
-    // c15b
-    char[4294967296] pack @lengthOf(uint8x),
-    // c23
-}// c24
-
-root packet trueish {
-    // c28
-    repeat uint64 u128 `line1
-    line2`,
-    // c33
-}
-// c34")).
-Eval vm_compute in ("<<<M215>>>" ++ check (runes_of_ascii "root	packet
-    i8i8 { @tag( // c
-4294967296 )
-    // packet A { u8 x, }
-    Header  calculatedFrom `
-`
-, @tag(4294967296 )
-@rightPad ( ' '
-    )
-@lengthOf( float )
-    options1 zchar `" ++ [233]%N ++ runes_of_ascii "`
-//x
-/// triple
-,}	root packet
-    // " ++ [128512]%N ++ runes_of_ascii " emoji
-    x {repeat
-zchar[  10 ]	x`u8 x,`,
-    }")).
-Eval vm_compute in ("<<<M1698>>>" ++ check (runes_of_ascii "
-root packet string_
-    { @leftPad  (
-    ' '
-
-    )
-    chars
-{repeat  zchar[ 0 ]
-tag
-    ,
-	string
-falsey
-    ,	// " ++ [128512]%N ++ runes_of_ascii " emoji
-  repeat
-
-char[
-007
-]  body `two words`
-    , } ,
-	@calculatedFrom(
-""// no comment""  ) Foo
-    T ,	// " ++ [128512]%N ++ runes_of_ascii " emoji
-    }")).
-Eval vm_compute in ("<<<M1795>>>" ++ check (runes_of_ascii "packet trueish {
-    @leftPad('0')
-    @tag(3)
-    @tag(7)
-    repeat matchKey {
-        u32 u,
-    },
-    @lengthOf(chars)
-    @calculatedFrom(""a	b"")
-    @tag(0123456789)
-    zchar[255] Pad,
-}
-
-root packet u {
-}")).
-Eval vm_compute in ("<<<M1323>>>" ++ check (runes_of_ascii "root packet Frame {
-    u8 K,
-    Logon first,
-    match K as Body {
-        1 : Logon,
-        2 : Logout,
-    },
-}
-packet Logon {
-    string user,
-}
-packet Logout {
-    u16 reason,
+@calculatedFrom( ""packet"" ) @rightPad	( ' ' ) @tag( 0)i64 chars , @lengthOf(
+    MetaDataX
+    ) int8 A
+@lengthOf( repeatCount ) `a\` ,char[1  ] roots
+@calculatedFrom(  """ ++ [128512]%N ++ runes_of_ascii """
+) ,
 }
 ")).
-Eval vm_compute in ("<<<M1818>>>" ++ check (runes_of_ascii "root packet _x {
-    uint32 trueish @calculatedFrom(""1"") `crlf
-        line`,
-}
-
-//
-packet Header {
-    repeat u64 stringy `// not a comment`,
-    float32 msg_type,
-}")).
-Eval vm_compute in ("<<<M250>>>" ++ check (runes_of_ascii "MetaData // a // b
-o {string Foo
-    , }
-MetaData  msg_type { Header len `" ++ [28040; 24687; 31867; 22411]%N ++ runes_of_ascii "`
-,
-    }
+Eval vm_compute in ("<<<M1377>>>" ++ check (runes_of_ascii "// top
 options
-{ tag
-= '0' ;
-    o=
-""CRC32"" ; Logon = ""`tick`"" ;// a // b
-}")).
-Eval vm_compute in ("<<<M543>>>" ++ check (runes_of_ascii "packet uint8x
-{ mat'1'ch pack
-    as msg_type	{
-    0123456789 :	float
+    // c0
+{ ArrayPrefixLenType // c2a
+  // c2b
+=
+    // c3
+u64 // c4
+;
+    // c5
+FixedStringPadFromLeft
+    // c6
+= // c7a
+  // c7b
+true // c8
+;
+    // c9
+FixedStringPadChar // c10
+= // c11
+'0'
+    // c12
+; // c13a
+  // c13b
 }
-,
-} packet //	t
-a1
-    { } options {packetx
-    = '\x00'	; u128= ""a	b""  ; }
-")).
-Eval vm_compute in ("<<<M538>>>" ++ check (runes_of_ascii "packet uint8x
-{ match pack
-    as msg_type	{
-    0123456789 :	float
+    // c14
+packet // c15
+Order {
+    // c17
 }
+    // c18
+root // c19a
+  // c19b
+packet // c20
+Leg // c21a
+  // c21b
+{ // c22a
+  // c22b
+char[] Ref
+    // c24
+, // c25a
+  // c25b
+repeat // c26
+Order // c27a
+  // c27b
+, // c28a
+  // c28b
+f32 // c29
+Acct
+    // c30
 ,
-} packet //	t
-a1
-    { } options {packetx
-    = '\x00'	%; u128= ""a	b""  ; }
-")).
-Eval vm_compute in ("<<<M487>>>" ++ check (runes_of_ascii "packet uint8x
-{ match pack
-    as msg_type	{
-    0123456789 :	float
+    // c31
+@leftPad
+    // c32
+( // c33a
+  // c33b
+'0'
+    // c34
+) char[ 10 ] // c38
+venue // c39a
+  // c39b
+, // c40
+@rightPad // c41a
+  // c41b
+(
+    // c42
+'0' // c43a
+  // c43b
+) char[ 3
+    // c46
+] // c47
+seqNo // c48
+,
+    // c49
+repeat u64 // c51
+Px // c52a
+  // c52b
+,
+    // c53
+u8 // c54
+Flags , // c56
+u32
+    // c57
+lastPx // c58
+@lengthOf( Body )
+    // c61
+,
+    // c62
+match // c63
+Flags
+    // c64
+as
+    // c65
+Body // c66a
+  // c66b
+{
+    // c67
+185 : Order , // c71a
+  // c71b
 }
-,
-} packet //	t
-a1
-    { } options packetx{
-    = '\x00'	; u128= ""a	b""  ; }
+    // c72
+, // c73
+u16 // c74
+sym // c75a
+  // c75b
+@calculatedFrom( // c76
+""CRC32"" // c77a
+  // c77b
+)
+    // c78
+, // c79a
+  // c79b
+}
+    // c80
 ")).
-Eval vm_compute in ("<<<M1748>>>" ++ check (runes_of_ascii "packet A {
-    match k as n {
-        [
-            ""a"", ""bb"", ""c c"", ""d"", ""e"",
-            ""f"", ""g"", ""h"", ""i""
-        ] : B,
-        2 : C,
+Eval vm_compute in ("<<<M1636>>>" ++ check (runes_of_ascii "options {
+    packetx = 42;
+}
+
+root packet falsey {
+    @tag(1)
+    crc {
+        repeat char[007] charz `it's`,
+        repeat u8 len `
+        `,
+        crc trueish,
     },
-}")).
-Eval vm_compute in ("<<<M665>>>" ++ check (runes_of_ascii "// @lengthOf(
-packet i8i8 { u128 o , }
-options { MetaDataX = true;
-    BodyLength =""packet"" x_y_z= 007
-crc //x
-= ""abc"" ; ;
-    msg_type =
-i16 }")).
-Eval vm_compute in ("<<<M675>>>" ++ check (runes_of_ascii "// @lengthOf(
-packet i8i8 { u128 o , }
-options { MetaDataX true =;
-    BodyLength =""packet"" x_y_z= 007
-crc //x
-= ""abc"" ;
-    msg_type =
-i16 }")).
-Eval vm_compute in ("<<<M98>>>" ++ check (runes_of_ascii "
-packet stringy {
+    match float as string_ {
+        ""x y"" : zchar,
+        """ ++ [128512]%N ++ runes_of_ascii """ : string_,
+        ""CRC32"" : options1,
+        [""1""] : crc,
+        ""packet"" : options1,
+        [
+            42, ""a	b"", """ ++ [233]%N ++ runes_of_ascii "t" ++ [233]%N ++ runes_of_ascii """, ""abc"", 0123456789,
+            ""{,}"", 00, """ ++ [233]%N ++ runes_of_ascii "t" ++ [233]%N ++ runes_of_ascii """
+        ] : asx,
+    },
+    repeat f64 charz,
+    @tag(10)
+    repeat charz Logon,
+    @lengthOf(u8x)
+    @calculatedFrom(""a\""b"")
+    @rightPad(' ')
+    u8 a1 `u8 x,`,
 }
-MetaData u8x	{ zchar[ 65535
-    // a // b
-    ] Pad ,stringy string_
-`u8 x,` ,	u8 lengthOf`
-` , char[ 255
-] pack , } 	 ")).
-Eval vm_compute in ("<<<M1899>>>" ++ check (runes_of_ascii "
-packet
-A
-{match
-	k
 
-    as
-	n	{[ ""a""
-,
-	""bb""  ,""c c""	, ""d""
-, ""e""  , ""f""
-    ,	""g""
-    , ""h"" , ""i""	,
-""j"" ] 
-:B, 
-2 :
-	C
-	} ,}
+packet falsey {
+    repeat char[] zchar,
+    @tag(255)
+    @calculatedFrom(""`tick`"")
+    char[] asx `say ""hi""`,
+    u8 As `u8 x,`,// 50% %s
+    zchar[00] uint8x @lengthOf(zchar),
+    char[255] uint8x,
+    Pad @lengthOf(_x) `" ++ [233]%N ++ runes_of_ascii "`,
+    _x,
+    @rightPad(' ')
+    uint16 BodyLength,
+    @lengthOf(int)
+    metadata tag,
+    int64 string_ `
+    `,
+}
+
+root packet o {
+}
+
+options {
+}")).
+Eval vm_compute in ("<<<M353>>>" ++ check (runes_of_ascii "root packet rootA {} packet // 50% %s
+Z9_ { repeat char[ 007] f32a , @rightPad ( )
+u32 Header `a\`,repeat Z9_, repeat i8i8
+    // 50% %s
+    int `u8 x,` // a // b
+, // `tick` ""quote"" 'q'
+uint8x , f64
+// @lengthOf(
+// `tick` ""quote"" 'q'
+i8i8  `" ++ [28040; 24687; 31867; 22411]%N ++ runes_of_ascii "` , @tag(
+//x
+// 50% %s
+3 ) // `tick` ""quote"" 'q'
+@tag(  3 ) @tag( 10
+) repeat int{ MetaDataX ,	} , @tag( 10 ) int8
+    // " ++ [128512]%N ++ runes_of_ascii " emoji
+    pack@lengthOf(	x ) ,
+    } packet metadata {
+    @calculatedFrom(""" ++ [233]%N ++ runes_of_ascii "t" ++ [233]%N ++ runes_of_ascii """ ) repeat
+    rootA uint8x, @calculatedFrom( ""\n"" ) @lengthOf(len ) BodyLength{ matchKey f32a `a\`
+,} ,
+char[]leftPad
+`tab	here`
+    ,
+    // " ++ [27880; 37322]%N ++ runes_of_ascii "
+    u32  a1,} packet
+trueish { @tag( 007 ) f64 f32a  @calculatedFrom( """")`say ""hi""`/// triple
+, @calculatedFrom( ""packet""
+    ) @calculatedFrom(
+    """ ++ [28040; 24687]%N ++ runes_of_ascii """// trailing space 
+)repeat char[	3 ]zchar`
+` , } MetaData tag
+{
+}
 ")).
-Eval vm_compute in ("<<<M1900>>>" ++ check (runes_of_ascii "
-packet
-A
+Eval vm_compute in ("<<<M1382>>>" ++ check (runes_of_ascii "
 
-    {  match k
+  options 
+{ ArrayPrefixLenType=  u32  ;
+
+FixedStringPadFromLeft =false ;
+
+    FixedStringPadChar 
+='0';}packet
+	Trade
+    {
+	repeat
+
+InVenue78 {u16
+	tag7 
+,repeat InLastpx9	{ 
+u8  pad0
+
+,
+	} , 
+int64
+Tail
+    ,
+
+repeat
+    InQty37 {
+char[ 
+2	]
+OrderId	,	zchar[
+    6] 
+lastPx 
+,
+	int64	Qty
+,
+	}
+	,
+
+uint8	Side2 ,
+
+}	,  }
+	packet Logon 
+{
+
+repeat string
+	venue  , @rightPad (
+
+'\x00'
+	) char[
+
+3]
+
+sym,zchar[ 9
+] count
+    ,zchar[
+7
+]
+
+f1
+	,Trade  ,
+    }
+	packet
+
+Logout{
+	} root packet
+	Reject	{int32	sym ,u8 Px,
+u32 Tail
+@lengthOf(	Body
+
+    )
+,
+
+match 
+Px
+    as Body
+{	184	: 
+Trade
+	,
+    173 :
+    Logon
+,
+
+12  :	Logout,
+    } , u32 
+tag7 @calculatedFrom(""CRC32""
+
+    )
+,
+}")).
+Eval vm_compute in ("<<<M1536>>>" ++ check (runes_of_ascii "options {
+    u128 = ""// no comment""
+}
+
+root packet Z9_ {
+    repeat char[] i8i8,
+    float64 MetaDataX,
+    repeat rootA {
+        msg_type @calculatedFrom(""\" ++ [233]%N ++ runes_of_ascii """),
+        match float as _x {
+            ""a\""b"" : u,
+            [
+                ""a	b"", ""CRC32"", 10, 007, 255,
+                ""x y"", 42, 3
+            ] : msg_type,
+            [
+                ""1"", ""\n"", 4294967296, ""abc"", ""// no comment"",
+                ""\n"", 1
+            ] : int,
+            [10] : As,
+            [0] : zchar,
+            7 : A,
+        },
+    },
+    char[] zchar @lengthOf(tag),
+}
+
+options {
+    body = ""1""
+    trueish = ' ';
+}")).
+Eval vm_compute in ("<<<M189>>>" ++ check (runes_of_ascii "packet body	{ @leftPad (
+    '\x00'
+    ) @tag(42
+    ) @tag( 65535  ) repeat
+    tag u `a\` // `tick` ""quote"" 'q'
+,Z9_ , //	t
+@tag(	10 )
+//	t
+// @lengthOf(
+f32 msg_type `// not a comment` , int16 matchKey
+    @calculatedFrom( ""a	b""
+    // a // b
+    )
+    `it's`  , }
+    packet T/// triple
+{	zchar[7
+    ]matchKey, falsey @lengthOf( stringy	) //x
+`crlf
+line`
+, } root packet options1
+    { @calculatedFrom( ""{,}""
+)
+matchKey @calculatedFrom(  ""`tick`""), zchar[0
+    ] stringy @lengthOf(int ) ,  } packet// packet A { u8 x, }
+msg_type
+{ } 	 ")).
+Eval vm_compute in ("<<<M1674>>>" ++ check (runes_of_ascii "  packet
+uint8x {
+	@calculatedFrom(  """ ++ [233]%N ++ runes_of_ascii "t" ++ [233]%N ++ runes_of_ascii """)	int16 x_y_z
+    // trailing space 
+  //x
+,
+
+repeatCount
+,
+
+Logon	{
+repeat // c
+  	i8
+
+    Packet //
+    	`// not a comment` , }
+
+,@rightPad 
+(  '0'	// trailing space 
+      )string msg_type	,
+
+@calculatedFrom( ""`tick`"" )
+	repeat	Z9_// " ++ [128512]%N ++ runes_of_ascii " emoji
+	repeatCount 
+//
+		// trailing space 
+  	,
+
+    o
+	`doc` ,
+    i64_	Pad,match repeatCount
+
+as
+    roots	{ [ 
+      // packet A { u8 x, }
+    // " ++ [27880; 37322]%N ++ runes_of_ascii "
+	  42
+,
+007 
+] :
+	    // packet A { u8 x, }
+i8i8  ,	},
+	} ")).
+Eval vm_compute in ("<<<M1176>>>" ++ check (runes_of_ascii "// top
+options
+    // c0
+{
+    // c1
+f32a
+    // c2
+=
+    // c3
+0
+    // c4
+}
+    // c5
+packet
+    // c6
+trueish
+    // c7
+{
+    // c8
+}
+    // c9
+MetaData
+    // c10
+_x
+    // c11
+{
+    // c12
+char[
+    // c13
+0123456789
+    // c14
+]
+    // c15
+zchar
+    // c16
+,
+    // c17
+string
+    // c18
+crc
+    // c19
+,
+    // c20
+char[
+    // c21
+1
+    // c22
+]
+    // c23
+options1
+    // c24
+,
+    // c25
+uint8
+    // c26
+repeatCount
+    // c27
+,
+    // c28
+}
+    // c29
+")).
+Eval vm_compute in ("<<<M133>>>" ++ check (runes_of_ascii "MetaData x_y_z {zchar[ 00 ] MetaDataX// a // b
+, }
+root
+packet u { @lengthOf(
+// @lengthOf(
+// a // b
+calculatedFrom
+    )	repeat Header{
+charz  @lengthOf( matchKey)
+    ,	repeat u8// trailing space 
+charz , char[]
+float
+    @calculatedFrom( ""CRC32"" )
+`{ , }`
+, }	,	}
+root packet lengthOf {
+@tag(7 ) @lengthOf( o )
+@tag(
+0 ) BodyLength  @calculatedFrom(
+// " ++ [128512]%N ++ runes_of_ascii " emoji
+//
+""a\\"" )	, } options {
+    f32a=
+    ""// no comment"" ; }")).
+Eval vm_compute in ("<<<M1346>>>" ++ check (runes_of_ascii "packet NewOrder {
+    u32 qty,
+}
+packet Cancel {
+    u64 id,
+}
+packet Business {
+    u8 Kind,
+    match Kind as Detail {
+        1 : NewOrder,
+        2 : Cancel,
+    },
+}
+packet TcpFrame {
+    u8 T,
+    match T as Body {
+        1 : Business,
+    },
+}
+packet UdpFrame {
+    u8 U,
+    match U as Body {
+        1 : Business,
+    },
+    Business extra,
+}
+root packet Wire {
+    TcpFrame,
+    UdpFrame,
+}
+")).
+Eval vm_compute in ("<<<M1915>>>" ++ check (runes_of_ascii "  packet
+a1	{
+
+    zchar[ 
+0 
+]
+    x 
+`say ""hi""`
+	,
+
+    }	packet 	 // trailing space 
+    BodyLength
+    {
+    match
+Pad as
+
+    A
+{  ""\n"" 
+:
+
+len}
+    , }
+MetaData
+
+repeatCount 
+{	string tag ,	}  MetaData
+    trueish
+    {  u128
+
+string_ 
+, char[
+	00	// trailing space 
+	] o,
+string  tag ,}
+	packet calculatedFrom 
+{
+
+    BodyLength
+`tab	here`
+,}
+")).
+Eval vm_compute in ("<<<M1375>>>" ++ check (runes_of_ascii "  options {StringPrefixLenType = u16
+
+;
+
+ArrayPrefixLenType=u64
+
+    ;}packet Order {
+    float64 Ref
+
+,
+
+repeat
+    i32 lastPx
+
+, } packet Fill
+
+{  zchar[
+    9]Ref,
+
+zchar[
+4] Px
+
+    ,	Order
+	, int8 
+count
+
+,
+    } packet Cancel  { 
+i16 
+Side2
+,
+    Order	, }
+root packet Party{ float64 Px
+    ,	zchar[  1 ] clOrdID
+    ,	}
+")).
+Eval vm_compute in ("<<<M1432>>>" ++ check (runes_of_ascii "
+// packet A { u8 x, }
+root packet
+
+zchar {
+
+@leftPad
+    ( 
+'\x00')
+	repeat
+Logon  BodyLength	,
+@rightPad  (
+	)
+	@calculatedFrom(
+    ""a\""b"" ) @tag( 42
+
+)
+repeat
+	_x MetaDataX
+    // 50% %s
+      ,
+    @leftPad//x
+		(
+
+    '0'
+	)	string
+
+calculatedFrom 
+@calculatedFrom(
+""it's"" ) ,
+	}")).
+Eval vm_compute in ("<<<M361>>>" ++ check (runes_of_ascii "// packet A { u8 x, }
+root packet  zchar { @leftPad
+    ( '\x00' )repeat Logon BodyLength
+, @rightPad (  ) @calculatedFrom(
+""a\""b""
+    )@tag( 42
+)
+repeat _x MetaDataX
+    // 50% %s
+    ,@leftPad //x
+( '0'
+    )string calculatedFrom @calculatedFrom( ""it's"" )
+    ,}")).
+Eval vm_compute in ("<<<M399>>>" ++ check (runes_of_ascii "packet
+    asx options @calculatedFrom(
+""""  ) @tag( 255 )repeat
+// packet A { u8 x, }
+// trailing space 
+int16 u8x
+,
+@tag(
+    //
+    007 )
+    @tag( 0
+    /// triple
+    ) @tag( 1) u
+    @lengthOf( T ),
+// `tick` ""quote"" 'q'
+//x
+} // " ++ [128512]%N ++ runes_of_ascii " emoji")).
+Eval vm_compute in ("<<<M477>>>" ++ check (runes_of_ascii "packet
+    asx { @calculatedFrom(
+""""  ) @tag( 255 )repeat
+// packet A { u8 x, }
+// trailing space 
+int16 u8x
+,
+@tag(
+    //
+    007 )
+    @tag( 0
+    /// triple
+    ) ) @tag( 1) u
+    @lengthOf( T ),
+// `tick` ""quote"" 'q'
+//x
+} // " ++ [128512]%N ++ runes_of_ascii " emoji")).
+Eval vm_compute in ("<<<M429>>>" ++ check (runes_of_ascii "packet
+    asx { @calculatedFrom(
+""""  ) @tag( 255 ;repeat
+// packet A { u8 x, }
+// trailing space 
+int16 u8x
+,
+@tag(
+    //
+    007 )
+    @tag( 0
+    /// triple
+    ) @tag( 1) u
+    @lengthOf( T ),
+// `tick` ""quote"" 'q'
+//x
+} // " ++ [128512]%N ++ runes_of_ascii " emoji")).
+Eval vm_compute in ("<<<M411>>>" ++ check (runes_of_ascii "packet
+    asx { @calculatedFrom(
+""""   @tag( 255 )repeat
+// packet A { u8 x, }
+// trailing space 
+int16 u8x
+,
+@tag(
+    //
+    007 )
+    @tag( 0
+    /// triple
+    ) @tag( 1) u
+    @lengthOf( T ),
+// `tick` ""quote"" 'q'
+//x
+} // " ++ [128512]%N ++ runes_of_ascii " emoji")).
+Eval vm_compute in ("<<<M336>>>" ++ check (runes_of_ascii "// c
+options {As
+='0'// 50% %s
+;
+float =
+    //
+    char[]	u =
+    ""a\""b"" ; msg_type = u32 ;	falsey = 7 ;/// triple
+}
+    // a // b
+    packet x_y_z { T// " ++ [27880; 37322]%N ++ runes_of_ascii "
+``, } packet
+    pack{ @leftPad ( ) rootA float , } // packet A { u8 x, }")).
+Eval vm_compute in ("<<<M1500>>>" ++ check (runes_of_ascii "MetaData i64_ {
+    int16 u128,
+}
+
+MetaData packetx {
+    char[] T,
+    uint16 a1 `a\`,
+    zchar[007] uint8x,
+}
+
+root packet A {
+    @leftPad(' ')
+    @tag(255)
+    @leftPad('\x00')
+    repeat leftPad i64_,
+}")).
+Eval vm_compute in ("<<<M38>>>" ++ check (runes_of_ascii "packet Logon {	@calculatedFrom(""{,}"") repeat	int64 Packet	, @tag( 42 )char[] MetaDataX`doc`, } MetaData Packet	{string msg_type , Logon calculatedFrom,f32a
+    matchKey ,zchar[	0	] _x ,  }")).
+Eval vm_compute in ("<<<M1766>>>" ++ check (runes_of_ascii "MetaData u128 {
+    // @lengthOf(
+    len x `it's`,
+    BodyLength Foo `doc`,
+    string_ a1 `{ , }`,
+    calculatedFrom u8x `u8 x,`,
+    MetaDataX matchKey,
+}
+
+packet u128 {
+}")).
+Eval vm_compute in ("<<<M607>>>" ++ check (runes_of_ascii "MetaData u
+    { } MetaData o
+{ float uint8x
+`100% of %d` ,repeatCount u8x u8x, string_ leftPad
+, i32
+    Foo , int64 x `two words` , calculatedFrom
+stringy `a\` ,
+}
+")).
+Eval vm_compute in ("<<<M696>>>" ++ check (runes_of_ascii "MetaData u
+    { } MetaData o
+{ float uint8x
+`100% of %d` ,repeatCount u8x, string_ leftPad
+'', i32
+    Foo , int64 x `two words` , calculatedFrom
+stringy `a\` ,
+}
+")).
+Eval vm_compute in ("<<<M608>>>" ++ check (runes_of_ascii "MetaData u
+    { } MetaData o
+{ float uint8x
+`100% of %d` ,repeatCount ,u8x string_ leftPad
+, i32
+    Foo , int64 x `two words` , calculatedFrom
+stringy `a\` ,
+}
+")).
+Eval vm_compute in ("<<<M661>>>" ++ check (runes_of_ascii "MetaData u
+    { } MetaData o
+{ float uint8x
+`100% of %d` ,repeatCount u8x, string_ leftPad
+, i32
+    Foo , int64 x `two words`  calculatedFrom
+stringy `a\` ,
+}
+")).
+Eval vm_compute in ("<<<M619>>>" ++ check (runes_of_ascii "MetaData u
+    { } MetaData o
+{ float uint8x
+`100% of %d` ,repeatCount u8x, : leftPad
+, i32
+    Foo , int64 x `two words` , calculatedFrom
+stringy `a\` ,
+}
+")).
+Eval vm_compute in ("<<<M1781>>>" ++ check (runes_of_ascii "
+
+  packet
+
+    A
+{Inner
+
+    { match
+    k 
 as
 
-n  {
+    n
 
-[""a""
+{ [1
 
-    ,
-
-    ""bb"",
-
-    ""c c""
-	,""d""
-
-    ,  ""e""
-    ]: 
-B, 
-2
-	:
-	C	} 
-, }
-
-")).
-Eval vm_compute in ("<<<M1948>>>" ++ check (runes_of_ascii "packet A {
-    u16 len @lengthOf(body) `
-        `,
-    u32 crc @calculatedFrom(""CRC32"") `
-        `,
-    string body,
-}")).
-Eval vm_compute in ("<<<M1165>>>" ++ check (runes_of_ascii "MetaData leftPad { chars MetaDataX , } packet repeatCount { char[ 255 // c
-] uint8x `" ++ [233]%N ++ runes_of_ascii "` , } MetaData pack { As Foo , }")).
-Eval vm_compute in ("<<<M499>>>" ++ check (runes_of_ascii "packet uint8x
-{ match pack
-    as msg_type	{
-    0123456789 :	float
-}
 ,
-} packet //	t
-a1
-    { } options {packetx")).
-Eval vm_compute in ("<<<M25>>>" ++ check (runes_of_ascii "packet stringy	{
-    } // packet A { u8 x, }
-packet
-    u128
-    { u16 len@lengthOf( u128)	,
-    //x
+22
+
+,
+007	,
+	4 
+,
+
+    5
+    , 66
+, 7
+
+    ]:  B ,} ,
+
+    }
+,
+
     }
 ")).
-Eval vm_compute in ("<<<M898>>>" ++ check (runes_of_ascii "packet A {
-  match k as n {
-    [""a"", 22, ""c c"", 4, ""e"", 66, ""g"", 8, ""i"", 10, ""k""] : B
-    2 : C
-  },
-}")).
-Eval vm_compute in ("<<<M583>>>" ++ check (runes_of_ascii "
-packet
-    asx {match u128 as lengthOf lengthOf
-{
-//	t
+Eval vm_compute in ("<<<M166>>>" ++ check (runes_of_ascii "  options {Packet =true msg_type
+=false // 50% %s
+Logon// @lengthOf(
+=
+true
+    packetx
+//
 // `tick` ""quote"" 'q'
-255 : x ,
-    } ,	}")).
-Eval vm_compute in ("<<<M1756>>>" ++ check (runes_of_ascii "
-packet
-    order_item
+=
+""abc"" ;
+    pack= ' '}
 
-    {u8  a  ,  }
-    root
-
-packet	new_order {
-
-order_item  ,u8
-x, }
 ")).
-Eval vm_compute in ("<<<M226>>>" ++ check (runes_of_ascii "// a // b
-packet Pad {
-    char[] // packet A { u8 x, }
-Z9_ @lengthOf( Pad
-) `{ , }` , } 	 ")).
-Eval vm_compute in ("<<<M644>>>" ++ check (runes_of_ascii "
+Eval vm_compute in ("<<<M42>>>" ++ check (runes_of_ascii "
+root packet  x  {
+@rightPad
+( '\x00' ) repeat
+    uint32 crc , } options{
+Packet
+    // @lengthOf(
+    =char[] }	MetaData o
+    {}
+")).
+Eval vm_compute in ("<<<M1688>>>" ++ check (runes_of_ascii "  options
+{ }	options{
+
+MetaDataX =char ; }MetaData Pad{
+	i8 metadata ,	string  stringy 
+, int8	As
+	`{ , }`  ,  
+  // c
+	}")).
+Eval vm_compute in ("<<<M1697>>>" ++ check (runes_of_ascii "
+packet A 
+{ match k as 
+n	{
+[
+1 ,
+22
+	, 007
+, 4
+    , 5
+
+,
+
+66
+,
+7,
+    8
+	,
+
+9
+]
+:  B
+
+,
+	2: C
+    }
+,
+}
+
+")).
+Eval vm_compute in ("<<<M1224>>>" ++ check (runes_of_ascii "options { } options { MetaDataX = char ; } MetaData
+// c
+Pad { i8 metadata , string stringy , int8 As `{ , }` , }")).
+Eval vm_compute in ("<<<M1772>>>" ++ check (runes_of_ascii "
 packet
-    asx {match u128 as lengthOf
-{
-//	t
-// `tick` ""quote"" 'q'
-255 : x" ++ [178]%N ++ runes_of_ascii " ,
-    } ,	}")).
-Eval vm_compute in ("<<<M602>>>" ++ check (runes_of_ascii "
-packet
-    asx {match u128 as lengthOf
-{
-//	t
-// `tick` ""quote"" 'q'
-255 :  ,
-    } ,	}")).
-Eval vm_compute in ("<<<M865>>>" ++ check (runes_of_ascii "packet A {
+A {
+match
+	k
+as n  // a
+    {	// b
+  1 // c
+    : // d
+    B 	 // e
+	  ,// f
+}// g
+    , // h
+		}
+")).
+Eval vm_compute in ("<<<M907>>>" ++ check (runes_of_ascii "packet A {
   match k as n {
-    [1, 22, 007, 4, 5, 66, 7, 8, 9] : B,
+    [1, ""bb"", 007, ""d"", 5, ""f"", 7, ""h"", 9, ""j"", 11, ""l""] : B
     2 : C
   },
 }")).
-Eval vm_compute in ("<<<M690>>>" ++ check (runes_of_ascii "// @lengthOf(
-packet i8i8 { u128 o , }
-options { MetaDataX = true;
-    BodyLength")).
-Eval vm_compute in ("<<<M819>>>" ++ check (runes_of_ascii "packet A {
+Eval vm_compute in ("<<<M1422>>>" ++ check (runes_of_ascii "packet
+	A
+    {
+
+    match
+	k
+as 
+n  {
+[ ""a""
+
+,
+	""bb"" ,007
+,""d"", ""e"" ] :
+B
+    2
+	: C  }
+    , }")).
+Eval vm_compute in ("<<<M874>>>" ++ check (runes_of_ascii "packet A {
   match k as n {
-    [""a"", 22, ""c c"", 4, ""e""] : B,
+    [""a"", ""bb"", 007, ""d"", ""e"", 66, ""g"", ""h"", 9] : B
     2 : C
   },
 }")).
-Eval vm_compute in ("<<<M1954>>>" ++ check (runes_of_ascii "options {
-    lengthOf = 3
-    trueish = true;
-    calculatedFrom = 007;
-}")).
-Eval vm_compute in ("<<<M798>>>" ++ check (runes_of_ascii "packet A {
+Eval vm_compute in ("<<<M890>>>" ++ check (runes_of_ascii "packet A {
   match k as n {
-    [""a"", ""bb"", 007] : B
+    [1, 22, 007, 4, 5, 66, 7, 8, 9, 10, 11] : B
+    2 : C
+  },
+}")).
+Eval vm_compute in ("<<<M843>>>" ++ check (runes_of_ascii "packet A {
+  match k as n {
+    [""a"", 22, ""c c"", 4, ""e"", 66, ""g""] : B,
+    2 : C
+  },
+}")).
+Eval vm_compute in ("<<<M1944>>>" ++ check (runes_of_ascii "MetaData charz {
+    pack MetaDataX,
+    falsey crc,
+    u32 u `// not a comment`,
+}")).
+Eval vm_compute in ("<<<M1628>>>" ++ check (runes_of_ascii "options {
+    T = 42
+    packetx = true;
+    x_y_z = char[];
+    trueish = u16
+}")).
+Eval vm_compute in ("<<<M816>>>" ++ check (runes_of_ascii "packet A {
+  match k as n {
+    [1, ""bb"", 007, ""d"", 5] : B
+    2 : C
+  },
+}")).
+Eval vm_compute in ("<<<M343>>>" ++ check (runes_of_ascii "//x
+packet
+rootA {f32
+uint8x `{ , }` ,	string msg_type`{ , }`	,
+    }")).
+Eval vm_compute in ("<<<M790>>>" ++ check (runes_of_ascii "packet A {
+  match k as n {
+    [1, ""bb"", 007] : B
     2 : C
   },
 }")).
 Eval vm_compute in ("<<<M781>>>" ++ check (runes_of_ascii "packet A {
   match k as n {
-    [""a"", ""bb""] : B
+    [1, ""bb""] : B
     2 : C
   },
 }")).
-Eval vm_compute in ("<<<M439>>>" ++ check (runes_of_ascii "packet uint8x
-{ match pack
-    as msg_type	{
-    0123456789")).
-Eval vm_compute in ("<<<M27>>>" ++ check (runes_of_ascii "options{Logon = """ ++ [28040; 24687]%N ++ runes_of_ascii """
-    ; BodyLength =
-    false
-; }
+Eval vm_compute in ("<<<M1433>>>" ++ check (runes_of_ascii "MetaData 	 // " ++ [128512]%N ++ runes_of_ascii " emoji
+	Logon  { char[42
+] Packet,  //x
+}")).
+Eval vm_compute in ("<<<M435>>>" ++ check (runes_of_ascii "packet
+    asx { @calculatedFrom(
+""""  ) @tag( 255 )")).
+Eval vm_compute in ("<<<M3>>>" ++ check (runes_of_ascii "packet // " ++ [27880; 37322]%N ++ runes_of_ascii "
+MetaDataX {int64  leftPad , }
 ")).
-Eval vm_compute in ("<<<M1205>>>" ++ check (runes_of_ascii "packet body { i32 // c
-f32a `{ , }` , } options { }")).
-Eval vm_compute in ("<<<M1257>>>" ++ check (runes_of_ascii "
-root	packet
-
-P	{
-	hdr {u8  a,
-}  ,u8 
-x , 
-}
+Eval vm_compute in ("<<<M1487>>>" ++ check (runes_of_ascii "options {
+    a = 1;// a
+    b = 2// b
+}")).
+Eval vm_compute in ("<<<M172>>>" ++ check (runes_of_ascii "MetaData
+//x
+// @lengthOf(
+i8i8 { }
 ")).
-Eval vm_compute in ("<<<M724>>>" ++ check (runes_of_ascii "// @lengthOf(
-packet i8i8 { u128 o , }
-opt")).
-Eval vm_compute in ("<<<M1729>>>" ++ check (runes_of_ascii "// top
-MetaData u {
-    // c2
-}
-// c3")).
-Eval vm_compute in ("<<<M1620>>>" ++ check (runes_of_ascii "// top
-packet x {
-    // c2
-}// c3")).
-Eval vm_compute in ("<<<M1849>>>" ++ check (runes_of_ascii "packet A {
+Eval vm_compute in ("<<<M1750>>>" ++ check (runes_of_ascii "packet A {
     u8 x `x
-    `,
+        `,
 }")).
-Eval vm_compute in ("<<<M83>>>" ++ check (runes_of_ascii "
-options{ options1 =	7 ;
-}
-")).
-Eval vm_compute in ("<<<M1478>>>" ++ check (runes_of_ascii "packet 
-A {
+Eval vm_compute in ("<<<M1592>>>" ++ check (runes_of_ascii "
+root 
+packet 	 // c
 
-}  // c" ++ [5760]%N ++ runes_of_ascii "
- 
+	a1 { }
 ")).
-Eval vm_compute in ("<<<M1069>>>" ++ check (runes_of_ascii "// a// bpacket A {}")).
-Eval vm_compute in ("<<<M1438>>>" ++ check (runes_of_ascii "// c
-MetaData u {
+Eval vm_compute in ("<<<M1077>>>" ++ check (runes_of_ascii "packet A {
+ u8 x `d" ++ [6158]%N ++ runes_of_ascii "`, // c" ++ [6158]%N ++ runes_of_ascii "
 }")).
-Eval vm_compute in ("<<<M1036>>>" ++ check (runes_of_ascii "packet A {
-}
-// c" ++ [12]%N)).
-Eval vm_compute in ("<<<M1029>>>" ++ check (runes_of_ascii "packet A {
-}// c" ++ [11]%N)).
-Eval vm_compute in ("<<<M712>>>" ++ check (runes_of_ascii "// @lengthOf(
+Eval vm_compute in ("<<<M1485>>>" ++ check (runes_of_ascii "
+// c" ++ [12288]%N ++ runes_of_ascii "
+
+	packet A
+	{  }
+
 ")).
-Eval vm_compute in ("<<<M975>>>" ++ check (runes_of_ascii "// c ")).
-Eval vm_compute in ("<<<M737>>>" ++ check ([1875; 65533]%N)).
+Eval vm_compute in ("<<<M1469>>>" ++ check (runes_of_ascii "packet 
+A{
+	} 
+	// c" ++ [12288]%N ++ runes_of_ascii "
+")).
+Eval vm_compute in ("<<<M1080>>>" ++ check (runes_of_ascii "packet A {
+}
+// c x")).
+Eval vm_compute in ("<<<M1066>>>" ++ check (runes_of_ascii "// c" ++ [8203]%N ++ runes_of_ascii "
+packet A {
+}")).
+Eval vm_compute in ("<<<M1165>>>" ++ check (runes_of_ascii "// c
+packet x { }")).
+Eval vm_compute in ("<<<M1512>>>" ++ check (runes_of_ascii "
+options{
+}")).
+Eval vm_compute in ("<<<M1054>>>" ++ check (runes_of_ascii "// c" ++ [12]%N)).
